@@ -19,6 +19,8 @@ let Tri = data | +A : Unit | +B : Bool | +C : Bool * Bool end in
 let Opt = data | +N : Unit | +S : (f :: Bool) end in
 let Empty = data end in
 let One = data | +X : Bool end in
+let Wide = data | +D0 : Unit | +D1 : Unit | +D2 : Unit | +D3 : Unit | +D4 : Unit | +D5 : Unit | +D6 : Unit | +D7 : Unit | +D8 : Unit | +D9 : Unit | +D10 : Unit end in
+let WideIn = data | +X : Wide end in
 "#;
 
 fn type_expr(name: &str, nested: bool) -> &'static str {
@@ -28,6 +30,8 @@ fn type_expr(name: &str, nested: bool) -> &'static str {
         | "Opt" => "Opt",
         | "Empty" => "Empty",
         | "One" => "One",
+        | "Wide" => "Wide",
+        | "WideIn" => "WideIn",
         | "Unit" => "Unit",
         | "Pair" => "Bool * Bool",
         | "Triple" => {
